@@ -12,6 +12,7 @@ import httpcore
 
 # outcome codes: 0 ok | 1 tcp ConnectError | 2 tcp ConnectTimeout | 3 tcp other
 #                | 4 tls ConnectError | 5 tls ConnectTimeout | 6 tls other
+#                | 7 tcp ReadError | 8 tls WriteError   (documented network errors that are not connect errors)
 RETRYABLE = (1, 2, 4, 5)
 
 
@@ -22,9 +23,10 @@ class Other(Exception):
 def _script(code: int) -> typing.Any:
     if code == 0:
         return None
-    stage = "tcp" if code <= 3 else "tls"
+    stage = "tcp" if code in (1, 2, 3, 7) else "tls"
     exc = {1: httpcore.ConnectError, 2: httpcore.ConnectTimeout, 3: Other,
-           4: httpcore.ConnectError, 5: httpcore.ConnectTimeout, 6: Other}[code]("scripted")
+           4: httpcore.ConnectError, 5: httpcore.ConnectTimeout, 6: Other,
+           7: httpcore.ReadError, 8: httpcore.WriteError}[code]("scripted")
     return (stage, exc)
 
 
@@ -47,17 +49,17 @@ def _expected(codes: list[int], N: typing.Any) -> tuple[int, int, int]:
     "C20", "retries",
     quick=[{"flavour": fl, "uds": u, "len": 3, "_pre": pre}
            for fl in ("sync", "async") for u in (False, True)
-           for pre in ("o0 in (0, 3, 6)", "o0 in (1, 2)", "o0 in (4, 5)")],
+           for pre in ("o0 in (0, 3, 6, 7, 8)", "o0 in (1, 2)", "o0 in (4, 5)")],
     thorough=[{"flavour": fl, "uds": u, "len": 5, "_pre": f"o0 == {a} and o1 == {b}"}
               for fl in ("sync", "async") for u in (False, True) for a in RETRYABLE for b in RETRYABLE]
-    + [{"flavour": fl, "uds": u, "len": 5, "_pre": f"o0 == {a} and o1 in (0, 3, 6)"}
+    + [{"flavour": fl, "uds": u, "len": 5, "_pre": f"o0 == {a} and o1 in (0, 3, 6, 7, 8)"}
        for fl in ("sync", "async") for u in (False, True) for a in RETRYABLE]
-    + [{"flavour": fl, "uds": u, "len": 5, "_pre": "o0 in (0, 3, 6)"}
+    + [{"flavour": fl, "uds": u, "len": 5, "_pre": "o0 in (0, 3, 6, 7, 8)"}
        for fl in ("sync", "async") for u in (False, True)],
     example=dict(N=2, o0=1, o1=5, o2=0, o3=0, o4=0, o5=0, late=True),
     require=("all-attempts-fail", "success-after-retry", "non-retryable", "late-failure", "retries-exhausted"),
     timeout={"quick": 240, "thorough": 1200},
-    symbolic="retries N (unbounded integer >= 0); outcome of each successive connection attempt (7 kinds, TCP/UDS or TLS stage); whether the exchange fails after establishment",
+    symbolic="retries N (unbounded integer >= 0); outcome of each successive connection attempt (9 kinds: success, ConnectError, ConnectTimeout, a foreign exception, ReadError/WriteError; TCP/UDS or TLS stage); whether the exchange fails after establishment",
     bounds="up to 3 (quick) / 5 (thorough) scripted attempts followed by a succeeding one, https origin over TCP and over a Unix socket, sync and async HTTPConnection via the pool",
     outside="proxied connections (the property is about direct connections); more than 6 attempts",
     stubs=("simulated backend: connect_tcp/connect_unix_socket/start_tls fail as scripted; sleep() only records its argument",),
@@ -65,7 +67,7 @@ def _expected(codes: list[int], N: typing.Any) -> tuple[int, int, int]:
 def retries(N: int, o0: int, o1: int, o2: int, o3: int, o4: int, o5: int, late: bool) -> None:
     """
     pre: N >= 0
-    pre: 0 <= o0 <= 6 and 0 <= o1 <= 6 and 0 <= o2 <= 6 and 0 <= o3 <= 6 and 0 <= o4 <= 6 and 0 <= o5 <= 6
+    pre: 0 <= o0 <= 8 and 0 <= o1 <= 8 and 0 <= o2 <= 8 and 0 <= o3 <= 8 and 0 <= o4 <= 8 and 0 <= o5 <= 8
     post: _
     """
     is_async = shard("flavour", "sync") == "async"
@@ -76,7 +78,7 @@ def retries(N: int, o0: int, o1: int, o2: int, o3: int, o4: int, o5: int, late: 
 
     def lazy(i: int) -> typing.Callable[[], typing.Any]:
         def get() -> typing.Any:
-            c = ladder(sym[i], 0, 6)
+            c = ladder(sym[i], 0, 8)
             seen.append(c)
             if c == 0 and late:  # only now does `late` matter: fork here
                 flag["late"] = True
@@ -128,6 +130,7 @@ def retries(N: int, o0: int, o1: int, o2: int, o3: int, o4: int, o5: int, late: 
             P.cover("retries-exhausted")
         want = httpcore.ConnectError if final in (1, 4) else httpcore.ConnectTimeout
         P.check(type(o.exc) is want, "last-error-raised", lambda: f"last-error:{o.kind()}!={want.__name__}")
-    elif final in (3, 6):
+    elif final in (3, 6, 7, 8):
         P.cover("non-retryable")
-        P.check(type(o.exc) is Other, "non-retryable-raised-as-is", lambda: f"nonretry:{o.kind()}")
+        want_t = {3: Other, 6: Other, 7: httpcore.ReadError, 8: httpcore.WriteError}[final]
+        P.check(type(o.exc) is want_t, "non-retryable-raised-as-is", lambda: f"nonretry:{o.kind()}")
